@@ -115,6 +115,9 @@ func strTok(v otto.Value, e string) string {
 	return b.String()
 }
 
+// the text forms of a Math result: String(r), r + "", and the property key made from r
+const c13textHelper = `(function(name){var a=[];for(var i=1;i<arguments.length;i++)a.push(arguments[i]);var r=Math[name].apply(null,a);var o={};o[r]=1;var k;for(var p in o){k=p}return [r,String(r),r+"",k]})`
+
 const c13concatHelper = `(function(k,a,b){return (k==="uri"?encodeURI:encodeURIComponent)(a+b)})`
 
 func implC13(line string) string {
@@ -145,6 +148,29 @@ func implC13(line string) string {
 			return e
 		}
 		return numTok(f[1], v)
+	case "txt":
+		name, _ := otto.ToValue(f[1])
+		v, e := c13call(c13textHelper, append([]otto.Value{name}, vals(f[2:])...))
+		if e != "" {
+			return e
+		}
+		o := v.Object()
+		if o == nil {
+			return "not-an-object"
+		}
+		r, _ := o.Get("0")
+		var texts []string
+		for _, k := range []string{"1", "2", "3"} {
+			t, _ := o.Get(k)
+			ts, _ := t.ToString()
+			texts = append(texts, hex.EncodeToString([]byte(ts)))
+		}
+		tok := texts[0]
+		if texts[1] != texts[0] || texts[2] != texts[0] {
+			tok = strings.Join(texts, "/") // String(r), r+"" and the property key disagree
+		}
+		x, _ := r.Export()
+		return fmt.Sprintf("t:%s;%T", tok, x)
 	case "mxo":
 		// arguments wrapped in objects with a recording valueOf: which ToNumber conversions happen is observable
 		name, _ := otto.ToValue(f[1])
@@ -788,7 +814,66 @@ func genStrings(c *h.Ctx) {
 	}
 }
 
+// genText: the text form and Go kind of Math results.  The Lean side prints the digits of its own result,
+// so only requests whose result is exactly determined are generated: the exact functions (abs floor ceil round
+// trunc sqrt max min) on any argument, pow with base ±2 and an integral exponent, and the library functions
+// on arguments of the special-value tables.
+func genText(c *h.Ctx) {
+	var big []float64
+	for _, k := range []int{0, 1, 10, 31, 32, 52, 53, 54, 55, 56, 59, 60, 62, 63, 64, 65, 69, 70, 75, 100, 1023} {
+		p := math.Ldexp(1, k)
+		big = append(big, p, p+1, p-1, p*1.5, p+0.5, p-0.5, math.Nextafter(p, math.Inf(1)), math.Nextafter(p, 0), p*1.25+2048)
+	}
+	big = append(big, 0, 0.4, 0.5, 0.6, 1e15+0.5, 1e16, 1e17, 1e19, 1e20, 1e21, 1e22, 123456789012345680000, 9007199254740993, 72057594037927936, 9223372036854775807,
+		9223372036854774784, 9223372036854775808, 18446744073709551616, 1.5e300, 5e-324, 1e-7, 1e-6, 123.456, math.Inf(1), math.NaN())
+	exact := []string{"abs", "floor", "ceil", "round", "trunc", "sqrt"}
+	add := func(line, key string) { c.Add(line, key) }
+	for _, f := range big {
+		for _, g := range []float64{f, -f} {
+			t := "f:" + h.F64Hex(g)
+			for _, fn := range exact {
+				add("txt "+fn+" "+t, "txt:"+fn)
+			}
+			add("txt sqrt f:"+h.F64Hex(g*g), "txt:sqrt")
+			add("txt max "+t+" f:3ff0000000000000", "txt:max")
+			add("txt min "+t+" f:3ff0000000000000", "txt:min")
+			add("txt max "+t, "txt:max")
+		}
+	}
+	for i := 0; i < c.N(4000, 150000); i++ {
+		g := math.Ldexp(float64(int64(c.Rng.U64()>>11)), c.Rng.Intn(40)-20) // integral and half-integral values around 2^33 … 2^73
+		if c.Rng.Bool() {
+			g = -g
+		}
+		if c.Rng.Chance(20) {
+			g += 0.5
+		}
+		fn := append(exact, "max", "min")[c.Rng.Intn(8)]
+		add("txt "+fn+" f:"+h.F64Hex(g), "txt:random")
+	}
+	for k := -5; k <= 70; k++ {
+		for _, b := range []float64{2, -2} {
+			add("txt pow f:"+h.F64Hex(b)+" f:"+h.F64Hex(float64(k)), "txt:pow")
+		}
+	}
+	sp := []string{"f:" + h.NaNHex, "f:0000000000000000", "f:8000000000000000", "f:7ff0000000000000", "f:fff0000000000000", "u", "n"}
+	for _, fn := range []string{"sin", "cos", "tan", "asin", "acos", "atan", "exp", "log"} {
+		for _, t := range sp {
+			add("txt "+fn+" "+t, "txt:special")
+		}
+	}
+	add("txt acos f:3ff0000000000000", "txt:special")
+	add("txt log f:3ff0000000000000", "txt:special")
+	for _, a := range sp {
+		for _, b := range sp {
+			add("txt atan2 "+a+" "+b, "txt:special")
+			add("txt pow "+a+" "+b, "txt:special")
+		}
+	}
+}
+
 func genC13(c *h.Ctx) {
 	genMath(c)
+	genText(c)
 	genStrings(c)
 }
